@@ -115,4 +115,153 @@ example : ∃ d, dispRepulsive 1 1 3 16 (1/40) = some d := by
   simp only [h16, h25]
   norm_num
 
+/-! ## Inverse power potential, attractive branch -/
+
+theorem dispAttractive_eq_some {K p s q dE d : ℝ} (h : dispAttractive K p s q dE = some d) :
+    let cd := if 0 < s then 0 + s else 0
+    let s' := if 0 < s then 0 else s
+    pot K p (s' * s' + q) + dE < 0 ∧
+      d = cd + (s' + Real.sqrt ((K / (pot K p (s' * s' + q) + dE)) ^ (2 / p) - q)) := by
+  intro cd s'
+  simp only [dispAttractive] at h
+  split_ifs at h with h1
+  exact ⟨not_le.1 h1, (Option.some.inj h).symm⟩
+
+/-- facts about the radius the code solves for (attractive case), from the position `s'` reached
+after the downhill stretch -/
+theorem attractive_radius {K p s' q dE : ℝ} (hK : K < 0) (hp : 0 < p) (hq : 0 < q) (hE : 0 ≤ dE)
+    (h2 : pot K p (s' * s' + q) + dE < 0) :
+    let R2 := (K / (pot K p (s' * s' + q) + dE)) ^ (2 / p)
+    s' * s' + q ≤ R2 ∧ pot K p R2 = pot K p (s' * s' + q) + dE := by
+  intro R2
+  have hn : 0 < s' * s' + q := by nlinarith [mul_self_nonneg s']
+  have hcur : pot K p (s' * s' + q) < 0 := pot_neg_of_neg hK hn
+  have hKy : 0 < K / (pot K p (s' * s' + q) + dE) := div_pos_of_neg_of_neg hK h2
+  refine ⟨?_, pot_inv hp hKy⟩
+  have h4 : K / pot K p (s' * s' + q) ≤ K / (pot K p (s' * s' + q) + dE) := by
+    rw [← neg_div_neg_eq K (pot K p (s' * s' + q)), ← neg_div_neg_eq K (pot K p (s' * s' + q) + dE)]
+    exact div_le_div_of_nonneg_left (by linarith) (by linarith) (by linarith)
+  rw [div_pot hK.ne hn] at h4
+  have h5 := Real.rpow_le_rpow (Real.rpow_pos_of_pos hn _).le h4 (show 0 ≤ 2 / p by positivity)
+  rwa [rpow_two_div hp hn.le] at h5
+
+/-- **Inverse power, attractive: the returned distance inverts the accumulated uphill energy.**
+`x₀ = max s 0` is the closest approach (the end of the initial downhill stretch, which accumulates
+nothing).  If the routine returns `d`, then `x₀ ≤ d`, the potential at `d` exceeds the one at `x₀` by
+exactly the budget, and the energy accumulated uphill along `[0, d]` is exactly the budget. -/
+theorem attractive_some {K p s q dE d : ℝ} (hK : K < 0) (hp : 0 < p) (hq : 0 < q) (hE : 0 ≤ dE)
+    (h : dispAttractive K p s q dE = some d) :
+    max s 0 ≤ d ∧ path K p s q d - path K p s q (max s 0) = dE ∧
+      uphill (path K p s q) 0 d = dE := by
+  obtain ⟨h2, hd⟩ := dispAttractive_eq_some h
+  rcases lt_or_ge 0 s with hs | hs
+  · -- behind the target: downhill until the closest approach `x = s`, then uphill
+    simp only [hs, if_true] at h2 hd
+    obtain ⟨hR1, hR3⟩ := attractive_radius (s' := 0) hK hp hq hE h2
+    set R2 := (K / (pot K p (0 * 0 + q) + dE)) ^ (2 / p) with hR
+    have hr0 : 0 ≤ R2 - q := by linarith
+    have hsq := Real.sqrt_nonneg (R2 - q)
+    rw [max_eq_left hs.le]
+    have hds : s ≤ d := by rw [hd]; linarith
+    have hval : path K p s q d - path K p s q s = dE := by
+      have e1 : nsq s q d = R2 := by
+        unfold nsq; rw [hd]
+        have := Real.mul_self_sqrt hr0
+        ring_nf; ring_nf at this; linarith
+      unfold path; rw [e1, nsq_self, hR3]; ring
+    refine ⟨hds, hval, ?_⟩
+    rw [uphill_anti_mono hs.le hds (path_antiOn_of_neg hK hp hq le_rfl)
+      (path_monoOn_of_neg hK hp hq le_rfl), hval]
+  · -- in front of the target: uphill from the start
+    have hs' : ¬ 0 < s := not_lt.2 hs
+    simp only [hs', if_false] at h2 hd
+    obtain ⟨hR1, hR3⟩ := attractive_radius (s' := s) hK hp hq hE h2
+    set R2 := (K / (pot K p (s * s + q) + dE)) ^ (2 / p) with hR
+    have hr0 : 0 ≤ R2 - q := by nlinarith [mul_self_nonneg s]
+    have hsq : -s ≤ Real.sqrt (R2 - q) := by
+      rw [show -s = Real.sqrt ((-s) * (-s)) from (Real.sqrt_mul_self (by linarith)).symm]
+      exact Real.sqrt_le_sqrt (by nlinarith)
+    rw [max_eq_right hs]
+    have hd0 : 0 ≤ d := by rw [hd]; linarith
+    have hval : path K p s q d - path K p s q 0 = dE := by
+      have e1 : nsq s q d = R2 := by
+        unfold nsq; rw [hd]
+        have := Real.mul_self_sqrt hr0
+        ring_nf; ring_nf at this; linarith
+      unfold path; rw [e1, nsq_zero, hR3]; ring
+    refine ⟨hd0, hval, ?_⟩
+    rw [uphill_mono (path_monoOn_of_neg hK hp hq hs) hd0, hval]
+
+/-- **Inverse power, attractive: infinite exactly when the path never accumulates the budget.** -/
+theorem attractive_none_iff {K p s q dE : ℝ} (hK : K < 0) (hp : 0 < p) (hq : 0 < q) (hE : 0 < dE) :
+    dispAttractive K p s q dE = none ↔ ∀ d, 0 ≤ d → uphill (path K p s q) 0 d < dE := by
+  constructor
+  · intro h d hd
+    simp only [dispAttractive] at h
+    have hneg : ∀ x, path K p s q x < 0 := fun x => pot_neg_of_neg hK (nsq_pos hq)
+    rcases lt_or_ge 0 s with hs | hs
+    · simp only [hs, if_true] at h
+      split_ifs at h with h1
+      rcases le_total d s with hds | hds
+      · rw [uphill_anti (path_antiOn_of_neg hK hp hq hds) hd]; exact hE
+      · rw [uphill_anti_mono hs.le hds (path_antiOn_of_neg hK hp hq le_rfl)
+          (path_monoOn_of_neg hK hp hq le_rfl)]
+        have e : path K p s q s = pot K p (0 * 0 + q) := by unfold path; rw [nsq_self]
+        have := hneg d
+        rw [e]; linarith
+    · have hs' : ¬ 0 < s := not_lt.2 hs
+      simp only [hs', if_false] at h
+      split_ifs at h with h1
+      rw [uphill_mono (path_monoOn_of_neg hK hp hq hs) hd]
+      have e : path K p s q 0 = pot K p (s * s + q) := by unfold path; rw [nsq_zero]
+      have := hneg d
+      rw [e]; linarith
+  · intro h
+    by_contra hne
+    obtain ⟨d, hd⟩ := Option.ne_none_iff_exists'.1 hne
+    obtain ⟨h1, _, h3⟩ := attractive_some hK hp hq hE.le hd
+    have hd0 : 0 ≤ d := (le_max_right s 0).trans h1
+    have := h d hd0
+    linarith
+
+/-- non-vacuity: `-1/r` attraction from `s = 3, q = 16` (behind the target), budget `1/8 < 1/4`:
+a finite distance is returned -/
+example : ∃ d, dispAttractive (-1) 1 3 16 (1/8) = some d := by
+  unfold dispAttractive pot
+  have h16 : ((0:ℝ) * 0 + 16) ^ ((1:ℝ) / 2) = 4 := by
+    rw [show (0:ℝ) * 0 + 16 = 4 ^ (2:ℝ) by norm_num, ← Real.rpow_mul (by norm_num)]; norm_num
+  simp only [show (0:ℝ) < 3 by norm_num, if_true, h16]
+  norm_num
+
+/-- non-vacuity of the infinite outcome: the same start with the budget `1/2 > 1/4` escapes -/
+example : dispAttractive (-1) 1 3 16 (1/2) = none := by
+  unfold dispAttractive pot
+  have h16 : ((0:ℝ) * 0 + 16) ^ ((1:ℝ) / 2) = 4 := by
+    rw [show (0:ℝ) * 0 + 16 = 4 ^ (2:ℝ) by norm_num, ← Real.rpow_mul (by norm_num)]; norm_num
+  simp only [show (0:ℝ) < 3 by norm_num, if_true, h16]
+  norm_num
+
+/-- **Inverse power potential, both signs** (`standard_velocity_displacement`): a returned finite
+distance is non-negative and the uphill energy accumulated along it equals the budget. -/
+theorem invPow_some {K p s q dE d : ℝ} (hK : K ≠ 0) (hp : 0 < p) (hq : 0 < q) (hE : 0 ≤ dE)
+    (h : dispInvPow K p s q dE = some d) : 0 ≤ d ∧ uphill (path K p s q) 0 d = dE := by
+  unfold dispInvPow at h
+  split_ifs at h with h1
+  · obtain ⟨a, _, _, b⟩ := repulsive_some h1 hp hq hE h; exact ⟨a, b⟩
+  · have hK' : K < 0 := lt_of_le_of_ne (not_lt.1 h1) hK
+    obtain ⟨a, _, b⟩ := attractive_some hK' hp hq hE h
+    exact ⟨(le_max_right s 0).trans a, b⟩
+
+/-- **Inverse power potential, both signs**: the routine answers `inf` exactly when the path never
+accumulates more than the budget (repulsive, `≤` as the code compares) / never reaches it (attractive). -/
+theorem invPow_none_iff {K p s q dE : ℝ} (hK : K ≠ 0) (hp : 0 < p) (hq : 0 < q) (hE : 0 < dE) :
+    dispInvPow K p s q dE = none ↔
+      if K > 0 then ∀ d, 0 ≤ d → uphill (path K p s q) 0 d ≤ dE
+      else ∀ d, 0 ≤ d → uphill (path K p s q) 0 d < dE := by
+  unfold dispInvPow
+  split_ifs with h1
+  · exact repulsive_none_iff h1 hp hq hE.le
+  · exact attractive_none_iff (lt_of_le_of_ne (not_lt.1 h1) hK) hp hq hE
+
+
 end JF.C02
